@@ -88,9 +88,13 @@ PayloadClasses == {"empty", "ascii", "jsonspecial", "multibyte", "invalidutf8", 
 LinkShapes == {"nil", "empty", "one", "two"}
 ClockClasses == {"zero", "small", "big31", "maxint"}
 \* ident: "dev1" / "dev2" are two identities of the same user id (same id, different signing key and signatures)
+\* via: "create" = through CreateEntry (which normalises the link lists), "direct" = a signed entry object assembled by
+\* the caller and written with ToMultihash as it is (a nil list is stored as null, an empty one as an empty array)
 C08Shapes ==
   [k : {"c08"}, payload : PayloadClasses, next : LinkShapes, refs : LinkShapes, clock : ClockClasses,
-   codec : {"cbor", "cbor+lk1"}, ident : {"dev1", "dev2"}]
+   codec : {"cbor", "cbor+lk1"}, ident : {"dev1", "dev2"}, via : {"create"}]
+  \cup [k : {"c08"}, payload : PayloadClasses, next : LinkShapes, refs : LinkShapes, clock : ClockClasses,
+        codec : {"cbor"}, ident : {"dev1"}, via : {"direct"}]
 
 \* what decoding the stored form must give back: everything but the hash, refs only for v > 1,
 \* nil and empty lists identified
